@@ -99,8 +99,9 @@ def s_pack(f, *vals):
             if not (ok if isinstance(ok, bool) else cur().branch(ok.e)):
                 raise _struct.error("'%s' format requires %d <= number <= %d" % (c, lo, hi))
             if v.lia:
+                from .core import lia_digits
                 u = v if not signed else s_ite(v < 0, v + (1 << (8 * size)), v)
-                items = [(u // (1 << (8 * i))) % 256 for i in range(size)]
+                items = lia_digits(u, 256, size)
             else:
                 e = v.tw(8 * size)
                 items = [SymInt.from_bv(z3.Extract(8 * i + 7, 8 * i, e), 0, 255, False) for i in range(size)]
